@@ -47,7 +47,7 @@ class Group:
                  unwindset=None, checks=None, floats=False, backend='sat', timeout=600, mem_gb=24,
                  tier='quick', defines=(), canary=True, min_props=1, expect_loop_props=0, object_bits=12,
                  rec=False, note='', extra_cbmc=(), no_unwind_funcs=(), property_ids=None, covers=None,
-                 slice_=False, cases=None):
+                 slice_=False, cases=None, mode='dfcc', m_pre=''):
         self.__dict__.update(locals())
         del self.__dict__['self']
 
@@ -71,6 +71,7 @@ def prove_group(cfile, g, workdir, canary=False):
     defs = ['-D' + d for d in g.defines] + (['-DCANARY'] if canary else [])
     gb0 = base + '.0.gb'
     r = run(['goto-cc', '--function', g.harness] + defs + [cfile, '-o', gb0], 300)
+    res['mode'] = g.mode
     if r['rc'] != 0:
         res['reason'] = 'goto-cc failed: ' + (r['err'] + r['out'])[-1500:]
         res['secs'] = time.time() - t0
@@ -105,7 +106,7 @@ def prove_group(cfile, g, workdir, canary=False):
             res['secs'] = time.time() - t0
             return res
         cur = gb1
-    if g.enforce or g.replace or g.loop_contracts:
+    if (g.enforce or g.replace or g.loop_contracts) and g.mode != 'M':
         gb2 = base + '.2.gb'
         cmd = ['goto-instrument', '--dfcc', g.harness]
         if g.enforce:
